@@ -458,6 +458,13 @@ func (e *vfE4Env) Exec(line string) string {
 		e.l.DB.Unlock()
 		return "reset"
 	}
+	if w[0] == "st" {
+		out, ok := e.execOnly(w[1:])
+		if !ok {
+			return "bad-op"
+		}
+		return out
+	}
 	out, ok := e.execOnly(w)
 	if !ok {
 		return "bad-op"
